@@ -47,7 +47,7 @@ def gen(ctx, fmt, maxentries, nserials, allvariants, tag):
 
 def run(ctx):
     binary = ctx.gobuild("c15")
-    plans = [("a", 2, 3, True)] if ctx.quick else [("a", 4, 2, True), ("b", 3, 4, True)]
+    plans = [("a", 2, 3, True)] if ctx.quick else [("a", 4, 3, True), ("b", 3, 4, True)]
     cands = []
     ncases = nchecks = nontriv = 0
     for tag, maxentries, nserials, allv in plans:
@@ -81,8 +81,31 @@ def run(ctx):
                        "each encoded from the specification's term, parsed by zcrypto, the parsed structure "
                        "compared and every query certificate checked (CRLSet additionally on a directly "
                        "constructed CRLSet value). Non-trivial = the set is not empty. evaluations = sets + "
-                       "Check calls judged (left-open verdicts are not counted).")
+                       "Check calls judged (left-open verdicts are not counted). Plus seeded random sets of up "
+                       "to 40 entries / 5 issuers / 1-20 octet serials with 24 random queries each, evaluated by "
+                       "TLC (RevSetsRand.tla) and judged the same way.")
     ctx.candidates(binary, cands)
+
+    # second direction: seeded random large sets drawn by the harness (abstract records only); TLC
+    # computes wire term, demanded parse result and verdicts (RevSetsRand.tla); same judging
+    nmod = 150 if ctx.quick else 6000
+    mf = ctx.specfile("revsets_models.ndjson")
+    ctx.run(binary, ["models", mf, str(nmod)], timeout=600)
+    r = ctx.tlc("RevSetsRand", "RevSets_rand.cfg", workers=1, timeout=3000, label="RevSetsRand[%d models]" % nmod)
+    m = re.search(r'<<"CASES", (\d+)>>', r.out)
+    if not m or int(m.group(1)) != nmod:
+        raise Machinery("RevSetsRand did not evaluate all models")
+    cf = ctx.path("rand_cases.ndjson")
+    shutil.move(ctx.specfile("revsets_cases.ndjson"), cf)
+    p = ctx.run(binary, ["replay-gen", "-", cf], timeout=3000)
+    c, st = ctx.harness_output(p)
+    if st.get("cases") != nmod or st.get("checks", 0) < nmod:
+        raise Machinery("harness judged %s random sets / %s checks" % (st.get("cases"), st.get("checks")))
+    ctx.cov["evaluations"] += nmod + st["checks"]
+    ctx.cov["traces_validated_against_impl"] += nmod
+    ctx.cov["random_sets"] = nmod
+    ctx.cov["random_set_checks"] = st["checks"]
+    ctx.candidates(binary, c)
 
 
 def replay(ctx, path):
